@@ -64,4 +64,14 @@ PROPS = {
         "rule": "lifecycle histories with AddVstorage / RemoveVstorage around the 1e6-byte-per-coin rounding boundary (k*1e6 + {-1,0,+1}, huge sizes), completions, renewals with top-ups, drained providers (collateral debt), migrations, expiries, terminations, claims. Per step (message, or the sao end-blocker traced individually) and per provider: balance change = collateral of its shards that ended (as recorded when taken, including renewal top-ups) - collateral newly taken + change of its recorded debt, exactly; the node escrow changes by exactly the sum of those flows (nothing leaks to anyone else); RemoveVstorage / ClaimReward change nobody else's balance; a failed message moves nothing; RemoveVstorage never removes more than the free capacity; 0 <= UsedStorage <= TotalStorage; capacity pledge returned never exceeds what was paid in. Non-trivial = a shard with recorded collateral ended and the provider had another pledge-affecting action (add/remove capacity, renewal, claim).",
         "assumptions": LIFE_ASSUME + ["providers are not payers in generated worlds, so a provider's balance moves only through collateral, claims, capacity pledges and explicit bank sends"],
     },
+    "C08": {
+        "tests": [{"name": "TestC08", "quick": 320, "thorough": 6000}],
+        "rule": "generated parameter sets (block reward 0..6.25e6, baseline below/above the reachable pledge, APY 0..25, halving period 11..3.2e7, adjustment period 11..2000; optionally a pool whose reward counter is already at 2e14..4e14-1e3 to reach later halving ages) x lifecycle histories dominated by AddVstorage/RemoveVstorage, completions/releases (all settle pending reward) and claims. The node begin-blocker of EVERY height is bracketed by supply and pool reads: minted m_h >= 0, m_h <= BlockReward >> age (age recomputed with integer arithmetic), m_h = 0 when nothing is pledged, m_h <= floor(TotalPledged*APY/(HalvingPeriod/2)) while below baseline, Pool.TotalReward grows by exactly m_h, and the supply does not change anywhere else (messages, end-blockers). Reference model of the pro-rata share: sum over mints of m_h*capacity_p/total capacity; at each claim claimed-so-far + claimable = share (1 coin + 1e-18*blocks*bytes), the claim pays exactly the whole-coin part of the accrued share, and sum(claimed)+sum(claimable) <= minted. Non-trivial = coins were minted, a capacity changed between two mints and a claim followed.",
+        "assumptions": LIFE_ASSUME + ["providers are funded, so no collateral debt is repaid out of claims in this campaign", "halving ages > 0 are reached through an installed Pool.TotalReward (a genesis field), not by executing 1e14 blocks"],
+    },
+    "C12": {
+        "tests": [{"name": "TestC12", "quick": 1600, "thorough": 30000}],
+        "rule": "1-2 orders handed to providers by their gateway (replica 1..N, N = 3..5 eligible providers, timeout 2-25 mostly, 50-300, 300-2000 in the thorough tier, negative values that Store's own validation accepts, duration 3600-9000); the generator owns the silence pattern: for every shard assignment (initial or after re-assignment) it draws whether the provider stays silent or completes after 0..T+2 blocks, and plays it as ordinary complete/advance actions. Oracle (bounded liveness as safety): while unfinished the order is named by a future TimeoutOrder entry; by created+(10+N+2)*T it is resolved (fully stored for its possibly reduced replica count, or gone); replica reductions and give-ups refund the unfulfilled part in the same end-blocker step; once fully stored its replica count, amount, status and completed shards never change again and nothing is re-assigned (until the end of the paid term). Non-trivial = a re-assignment, a replica reduction or a give-up happened.",
+        "assumptions": LIFE_ASSUME + ["'eventually' is replaced by the explicit bound (10 + N + 2) timeout intervals", "deleting dead Timeout-status shard records after completion is tolerated", "orders never handed to providers (client Store without Ready) are outside the statement"],
+    },
 }
